@@ -165,7 +165,7 @@ pub fn random_order(r: &mut Rng, id: OrderId, price: u64, zero_ok: bool, big: bo
 /// E-seq (DESIGN §4.2): sequential histories on one level. The generator drives a private copy of
 /// the real level only to learn which ids are live (so that ids stay unique among resting orders
 /// and sums stay below 2^64, as the properties' quantifier demands).
-pub fn gen_seq(seed: u64, ncases: u64, maxlen: u64, zero_ok: bool, out: &Sink) {
+pub fn gen_seq(seed: u64, ncases: u64, maxlen: u64, zero_ok: bool, rebuilds: bool, out: &Sink) {
     let mut r0 = Rng::new(seed ^ 0x5345_5100);
     for case in 0..ncases {
         let mut r = r0.fork();
@@ -173,13 +173,32 @@ pub fn gen_seq(seed: u64, ncases: u64, maxlen: u64, zero_ok: bool, out: &Sink) {
         let npool = r.range(3, 7);
         let len = 1 + r.below(maxlen);
         let big = r.chance(1, 25);
-        let lvl = PriceLevel::new(price);
+        let mut lvl = PriceLevel::new(price);
+        let mut forked = false;
+        // after a rebuild the order among equal timestamps is the (per-instance, random) hash order
+        // of the map, so the generator's private copy may fill different orders than the level
+        // under test: from then on adds use ids never used before in the case
+        let mut rebuilt = false;
+        let mut fresh = 100u64;
         let generator = UuidGenerator::new(Uuid::from_u128(crate::run::NS));
         out.push(format!("case {case}"));
         out.push(format!("new {price}"));
         let mut total: u128 = 0; // everything ever supplied (upper bound for sums)
         for _ in 0..len {
             let live: Vec<OrderId> = lvl.iter_orders().iter().map(|o| o.id()).collect();
+            if rebuilds && r.chance(1, 12) {
+                let kind = *r.pick(&["snapshot", "from", "package", "json", "data", "serde", "text", "lying-snapshot", "lying-data"]);
+                out.push(format!("rebuild {kind}"));
+                out.push("state".to_string());
+                // the generator's private level is rebuilt the same way so that liveness and the
+                // queue order stay those of the level under test
+                let snap = lvl.snapshot();
+                lvl = PriceLevel::from_snapshot(snap).unwrap_or_else(|_| PriceLevel::new(price));
+                rebuilt = true;
+            } else if rebuilds && !forked && r.chance(1, 15) {
+                out.push(format!("fork {}", r.pick(&["snapshot", "json"])));
+                forked = true;
+            }
             if r.chance(1, 8) {
                 out.push(format!("read {}", r.pick(&["snapshot", "package", "json", "display", "serde", "stats", "list", "agg"])));
             }
@@ -188,7 +207,7 @@ pub fn gen_seq(seed: u64, ncases: u64, maxlen: u64, zero_ok: bool, out: &Sink) {
                 // add with an id that is not live
                 let cands: Vec<OrderId> = (1..=npool).map(pool_id).filter(|i| !live.contains(i)).collect();
                 if cands.is_empty() { continue; }
-                let id = *r.pick(&cands);
+                let id = if rebuilt { fresh += 1; pool_id(fresh) } else { *r.pick(&cands) };
                 let o = random_order(&mut r, id, price, zero_ok, big);
                 let supplied = o.visible_quantity() as u128 + o.hidden_quantity() as u128;
                 if (total + supplied) * (price as u128) >= (1u128 << 63) { continue; }
